@@ -62,7 +62,7 @@ GATT_ERROR_CODES = (-1, 0, 1, 2, 3, 5, 8, 13, 15, 0x80, 0x85, 0x8F, 0xFF, 0x100,
 
 def exhaustive(tier: str) -> Any:
     if tier == "thorough":
-        return ["all orderings of every 1-4 item subset of the 9-item reply alphabet, for each single operation and for pairs sharing an address"]
+        return ["all orderings of every 1-4 item subset of the 10-item reply alphabet, for each single operation and for pairs sharing an address"]
     return False
 
 
@@ -99,8 +99,9 @@ def build_msg(pb: Any, item: list[Any], ops: list[dict[str, Any]], n: int) -> An
         # (an explicit error code may ride along: the GATT status byte range, ESPHome's own -1 "not connected", the ends of the int32 field)
         return pb.BluetoothGATTErrorResponse(address=other(a) if kind == "err_fa" else a, handle=other_h(h) if kind == "err_fh" else h,
                                              error=item[2] if len(item) > 2 else n)
-    if kind == "data":
-        return pb.BluetoothGATTNotifyDataResponse(address=a, handle=h, data=bytes([n % 251]))
+    if kind in ("data", "data_fa", "data_fh"):
+        # a spontaneous notification (a peripheral whose CCCD is still enabled from an earlier session): not an answer to anything
+        return pb.BluetoothGATTNotifyDataResponse(address=other(a) if kind == "data_fa" else a, handle=other_h(h) if kind == "data_fh" else h, data=bytes([n % 251]))
     raise ValueError(kind)
 
 
@@ -381,7 +382,8 @@ def judge(case: dict[str, Any], o: dict[str, Any]) -> list[tuple[str, str]]:
         if name == "start_notify" and rec.outcome == "ok":
             want = [bytes(m_.data) for sq, _, m_ in o["arrivals"] if sq > rec.seq_ret and type(m_).__name__ == "BluetoothGATTNotifyDataResponse"
                     and m_.address == op["addr"] and m_.handle == op.get("handle", H1)]
-            gotd = [ev[2] for _, _, ev in o["cb_log"][i] if ev[0] == "notify"]
+            # (notifications that arrive before the call has returned are outside the statement: judged from the return on)
+            gotd = [ev[2] for sq_, _, ev in o["cb_log"][i] if ev[0] == "notify" and sq_ > rec.seq_ret]
             if gotd != want:
                 out.append(("C16/start_notify/notify-data-mismatch", f"{tag}: notify callback received {gotd}, matching notifications carried {want}"))
         # callbacks of this operation: only matching traffic, and nothing after a non-success ending
@@ -405,7 +407,7 @@ def judge(case: dict[str, Any], o: dict[str, Any]) -> list[tuple[str, str]]:
 
 
 def reply_alphabet() -> list[list[Any]]:
-    return [["T", 0], ["T_fa", 0], ["T_fh", 0], ["err", 0], ["err_fa", 0], ["err_fh", 0], ["conn", A, 0], ["conn", B, 1], ["conn", B, 0]]
+    return [["T", 0], ["T_fa", 0], ["T_fh", 0], ["err", 0], ["err_fa", 0], ["err_fh", 0], ["conn", A, 0], ["conn", B, 1], ["conn", B, 0], ["data", 0]]
 
 
 def gen_case(rng: Any) -> dict[str, Any]:
@@ -437,6 +439,9 @@ def gen_case(rng: Any) -> dict[str, Any]:
             replies.append(["conn", rng.choice([A, B]), rng.randrange(2)])
         elif r < 0.9 and ops[i]["op"] == "get_services":
             replies.append(["svc", i, rng.randrange(2)])
+        elif r >= 0.93:
+            # an unsolicited notification for the operation's own address and handle (or a neighbouring one) ahead of / between the answers
+            replies.append([rng.choice(["data", "data", "data_fa", "data_fh"]), i])
         else:
             replies.append(["T", i])
     case: dict[str, Any] = {"ops": ops, "replies": replies, "answer_disconnect": rng.random() < 0.5, "values": list(vals)}
